@@ -806,22 +806,12 @@ func rungFlags(fn *Func, rg anyRung) []string {
 			if !ok {
 				return true
 			}
-			t := info.TypeOf(sel)
-			if t == nil {
+			// (the selector node may be a clone made by helper inlining: judge by the field object)
+			fv, isField := info.ObjectOf(sel.Sel).(*types.Var)
+			if !isField || !fv.IsField() || fv.Pkg() == nil || !strings.HasSuffix(fv.Pkg().Path(), "hcl-lang/schema") {
 				return true
 			}
-			if b, ok := t.Underlying().(*types.Basic); !ok || b.Kind() != types.Bool {
-				return true
-			}
-			xt := info.TypeOf(sel.X)
-			if pt, ok := xt.(*types.Pointer); ok {
-				xt = pt.Elem()
-			}
-			nt := namedOf(xt)
-			if nt == nil || nt.Obj().Pkg() == nil || !strings.HasSuffix(nt.Obj().Pkg().Path(), "hcl-lang/schema") {
-				return true
-			}
-			if _, isField := info.ObjectOf(sel.Sel).(*types.Var); !isField {
+			if b, ok := fv.Type().Underlying().(*types.Basic); !ok || b.Kind() != types.Bool {
 				return true
 			}
 			nm := canonId(sel.Sel.Name)
